@@ -124,6 +124,9 @@ pub fn probes_of(l: &Ledger) -> Vec<&'static str> {
                         if st.snap.outstanding.len() >= 3 {
                             p.push("three_or_more_concurrent_requests");
                         }
+                        if st.snap.outstanding.len() > 10 {
+                            p.push("more_than_ten_concurrent_requests");
+                        }
                         if let Some(Ev::Timer(_, 0)) = st.events.last() {
                             p.push("notification_zero_overdue_at_send");
                         }
@@ -137,6 +140,9 @@ pub fn probes_of(l: &Ledger) -> Vec<&'static str> {
                 }
             }
             Call::Restart => p.push("client_restart"),
+        }
+        if st.snap.violated.len() > 10 {
+            p.push("more_than_ten_requests_marked_by_rejected_responses");
         }
         let cred = st.snap.cred.as_str();
         if let Some(pc) = prev_cred {
